@@ -183,3 +183,19 @@ theorem c01_never_a_wrong_copy (sc : SCfg) (rc : RCfg) (hb : 0 < sc.b) (hw1 : 1 
   closed_loop_never_wrong sc rc ⟨⟨hb, hw1, hw, hrep, hrb, hrw, hrrep⟩, ht⟩ fl f fuel
 
 end Tftp
+
+namespace Tftp
+
+/-- **what has been accepted is always a prefix of the file - at every moment, for any length**: for every file
+(no bound on the number of blocks), block size, window size, every schedule of lost and duplicated datagrams and
+every number of steps of the closed loop, the blocks the receiving side has accepted so far are exactly blocks
+`1..j` of the sender's file, in order. (This removes the 65535-block bound of `c01_closed_loop_no_corruption` for
+the FIFO closed loop; the open-system statement with reordering keeps the bound.) -/
+theorem c01_accepted_prefix_any_length (sc : SCfg) (rc : RCfg) (hb : 0 < sc.b) (hw1 : 1 ≤ sc.w) (hw : sc.w < 65536)
+    (hrep : sc.rep = 1) (ht : 0 < sc.timeout) (hrb : rc.b = sc.b) (hrw : rc.w = sc.w) (hrrep : rc.rep = 1)
+    (fl : Faults) (f : Bytes) (fuel : Nat) :
+    (netRun sc rc fl fuel (netInit sc rc fl f)).r.received =
+      blocksUpTo sc.b f (netRun sc rc fl fuel (netInit sc rc fl f)).r.received.length :=
+  closed_loop_accepted_prefix sc rc ⟨⟨hb, hw1, hw, hrep, hrb, hrw, hrrep⟩, ht⟩ fl f fuel
+
+end Tftp
